@@ -556,7 +556,8 @@ def r20_4(c, R, M):
                 "integers of the declared width (buffer size = width), count before elements, nested structures through their own "
                 "_write/_read/_len, constants written from their expression and checked (literal) or discarded on read, nowrite fields "
                 "derived from the tag, every field bound to the value read for it; arms in DSL order with the DSL patterns and guards; "
-                "the public to_bytes/write/read/length call the generated functions of ClassFile")
+                "the public to_bytes/write/read/length call the generated functions of ClassFile and do nothing else (no validation, "
+                "normalisation, loop or additional error between the caller and the expansion)")
     adt_names = set()
     for b in c.bodies:
         if b.get("name") in ("_write", "_read", "_len") and (b.get("impl_ty") or "").startswith(CR + "::") and not b.get("impl_trait"):
@@ -576,7 +577,7 @@ def r20_4(c, R, M):
             n_expected += 3 * len(m["variants"]) + 1
             _enum(R, rid, m, fns, adt)
     _api(c, R, rid)
-    R.floor(rid, n_expected + 4)
+    R.floor(rid, n_expected + 8)
 
 
 def _report(R, rid, key, sp, fn):
@@ -792,15 +793,58 @@ def _returns(body, call):
     return False
 
 
+# what a public entry point may do besides calling the generated function: value conversions and Result plumbing, a fresh buffer, the
+# sibling entry points; anything else (a loop, an assignment, a further call: validation, normalisation, an additional error) makes
+# read/write differ from the DSL expansion
+_API_HARMLESS = {"from", "into", "try_from", "try_into", "unwrap", "expect", "new", "with_capacity", "map", "map_err", "ok", "and_then",
+                 "as_mut", "as_ref", "borrow_mut", "borrow", "by_ref", "clone", "capacity", "len", "branch", "from_residual", "from_output"}
+
+
+def _api_extras(c, T, b, allowed_gen, depth=0, seen=()):
+    """Constructs of a public entry point that are not part of `delegate to the generated function`: [text].  Calls of other hand-written
+    functions of the crate are followed (a private helper the entry point delegates through is the same entry point)."""
+    out = []
+    gen = "%s::%s::" % (CR, T)
+    for n in H.walk(b["body"]):
+        k = n.get("k")
+        if k in ("loop", "for"):
+            out.append("a loop (%s)" % H.render(n)[:60])
+        elif k in ("assign", "assignop"):
+            out.append("an assignment (%s)" % H.render(n)[:60])
+        elif k in ("call", "mcall"):
+            cal = n.get("callee") or {}
+            path = cal.get("path") or ""
+            if (cal.get("dk") or "").startswith("Ctor") or cal.get("r") == "selfctor":
+                continue
+            if path.startswith(gen) and short(path) in allowed_gen:
+                continue
+            key = cal.get("inst_key") or cal.get("key")
+            hb = c.by_key.get(key) if hasattr(c, "by_key") else None
+            if hb is not None and isinstance(hb.get("body"), dict) and path.startswith(CR + "::") and key not in seen and depth < 2 \
+                    and not (path.startswith(gen) and short(path).startswith("_")):
+                out.extend(_api_extras(c, T, hb, allowed_gen, depth + 1, tuple(seen) + (key,)))
+                continue
+            if H.callee_name(n) in _API_HARMLESS and not path.startswith(CR + "::"):
+                continue
+            out.append("a call of %s" % (path or H.callee_name(n)))
+    return out
+
+
 def _api(c, R, rid):
     """impl ClassFile { to_bytes, write, read, length }: each delegates to the generated function (any call syntax, value
-    conversions and `?`/`Ok(..)` re-wrapping allowed)."""
+    conversions and `?`/`Ok(..)` re-wrapping allowed) and does nothing else."""
     T = "ClassFile"
 
     def body_call(fname):
         b = fn_of(c, T, fname)
         if not R.anchor(rid, "fn %s::%s" % (T, fname), b):
             return None, None
+        gens = {"write": ("_write",), "read": ("_read",), "length": ("_len",), "to_bytes": ("_write", "_len")}[fname]
+        extras = _api_extras(c, T, b, gens, seen=(b["key"],))
+        R.inst(rid, "api:%s:nothing-else" % fname, not extras, sp=b["sp"], got=sorted(set(extras))[:8],
+               expect="only the generated %s (plus value conversions / Result plumbing)" % " / ".join(gens),
+               detail="ClassFile::%s is the plain DSL expansion: no further validation, normalisation or refusal between the caller and "
+                      "the generated function" % fname)
         return b, _param_ids(b)
 
     b, ids = body_call("write")
